@@ -67,12 +67,18 @@ Section Tbl.
     | _, _ => false
     end.
 
-  Fixpoint reqs_eqb (obs : list (N * list N)) (p : list req) : bool :=
-    match obs, p with
-    | [], [] => true
-    | (h, bks) :: o', (k, bks') :: p' => bytes_eqb [h] k && nlist_eqb bks bks' && reqs_eqb o' p'
-    | _, _ => false
-    end.
+  Definition subset (a b : list N) : bool := forallb (fun x => existsb (N.eqb x) b) a.
+
+  (* Requests() and the model's request list describe the same outstanding set: the same
+     hashes, each with the same SET of bucket ids.  (The ORDER of the requests and the
+     multiplicity of a bucket id — one entry per requester — are not compared: they are
+     scheduling details of the implementation, not part of the property.) *)
+  Definition reqs_eqb (obs : list (N * list N)) (p : list req) : bool :=
+    (length obs =? length p)%nat &&
+    forallb (fun o => match find_req p [fst o] with
+                      | Some bks => subset (snd o) bks && subset bks (snd o)
+                      | None => false
+                      end) obs.
 
   Definition counts_ok (s : state) (un res : N) : bool :=
     (N.of_nat (unresolved s) =? un) && (N.of_nat (resolved s) =? res).
@@ -86,8 +92,6 @@ Section Tbl.
     let added := firstn (length e' - length e) e' in
     if forallb (fun kv => bytes_eqb (snd (fst kv)) h) added
     then Some (map (fun kv => fst (fst kv)) added) else None.
-
-  Definition subset (a b : list N) : bool := forallb (fun x => existsb (N.eqb x) b) a.
 
   Definition check_op (s : state) (c : cop) : state * bool :=
     match c with
